@@ -38,6 +38,9 @@ func init() {
 			{ID: "C12.17", Desc: "fields nominated by a qualified no-cache are removed by their canonical names on every path (set-cookie, SET-COOKIE)", Run: func(c *Ctx) { ruleC02_4(c); renameRule(c, "C02.4", "C12.17") }, MinSites: 1},
 			{ID: "C12.18", Desc: "a signed number is not delta-seconds", Run: func(c *Ctx) { ruleDeltaSecondsUnsigned(c, "C12.18") }, MinSites: 1},
 			{ID: "C12.19", Desc: "HTAB is optional whitespace like SP", Run: func(c *Ctx) { ruleListTrimOWS(c, "C12.19") }, MinSites: 1},
+			{ID: "C12.20", Desc: "the scanner yields a directive whatever its argument", Run: func(c *Ctx) { ruleScannerYieldsWhateverTheArgument(c, "C12.20") }, MinSites: 1},
+			{ID: "C12.21", Desc: "an out-of-range number acts as the greatest representable value", Run: func(c *Ctx) { ruleOverflowSaturatesAtTheBound(c, "C12.21") }, MinSites: 1},
+			{ID: "C12.22", Desc: "empty list elements are ignored where a request Cache-Control selects a variant", Run: func(c *Ctx) { ruleListValuesThroughTheSplitter(c, "C12.22") }, MinSites: 1},
 		},
 	})
 }
